@@ -35,6 +35,14 @@ EXTRA = [
     dict(name="x/getitem-list-index", body="out = x[ix]", leaves=[["x", [3]]], setup="ix = [0, 0, 2]"),
     dict(name="x/einsum", body="out = mg.einsum('i,i->i', x, y)", leaves=[["x", [2]], ["y", [2]]]),
     dict(name="x/neg-neg", body="out = -(-x)", leaves=[["x", [2]]]),
+    # caller-owned integer index ARRAYS with negative entries (the library must not normalise them in place), also read-only ones
+    dict(name="x/getitem-neg-int64-index", body="out = x[ix]", leaves=[["x", [3]]], setup="ix = np.array([-1, 0])"),
+    dict(name="x/getitem-neg-int64-index-2d", body="out = x[ix]", leaves=[["x", [2, 3]]], setup="ix = np.array([-1, -2, 0])"),
+    dict(name="x/getitem-neg-index-tuple", body="out = x[ix, jx]", leaves=[["x", [2, 3]]], setup="ix = np.array([-1, 0])\njx = np.array([0, -1])"),
+    dict(name="x/getitem-neg-int32-index", body="out = x[ix]", leaves=[["x", [3]]], setup="ix = np.array([-1, -1, 0], dtype=np.int32)"),
+    dict(name="x/setitem-neg-index", body="z = +x\nz[ix] = y\nout = z", leaves=[["x", [3]], ["y", [2]]], setup="ix = np.array([-1, 0])"),
+    dict(name="x/getitem-readonly-index", body="out = x[ix]", leaves=[["x", [3]]], setup="ix = np.array([-1, 0])\nix.flags.writeable = False"),
+    dict(name="x/take-like-repeat-neg", body="out = x[ix] * x[ix]", leaves=[["x", [3]]], setup="ix = np.array([-2, -2])"),
 ] + [
     # same-shape operands under a where= mask (pass-through gradients of two operands must still be distinct arrays)
     dict(name="x/where-same-shape/%s/%s/%dd" % (op, kind, len(shp)), body="out = mg.%s(x, y, where=M, out=%s)" % (op, tgt), leaves=[["x", shp], ["y", shp]],
